@@ -122,8 +122,9 @@ theorem rangeOf_rangeNode (f : Nat) (r : Option Int × Option Int) (h1 : wBound 
     rangeOf N (f + 2) (rangeNode N r) = .ok (some r) := by
   obtain ⟨a, b⟩ := r
   cases a <;> cases b <;> dsimp only at h1 h2 <;>
+    (cases hex : N.exactHops) <;>
     simp [rangeOf, rangeNode, kids_nd, optList, List.filterMap, rangeTok_star hN recT recW Hrec, rangeTok_dots hN recT recW Hrec,
-      rangeTok_intLit hN recT recW Hrec f, h1, h2, parseRange, rangeStep]
+      rangeTok_intLit hN recT recW Hrec f, h1, h2, parseRangeWith, hex, RTok.isDots, rangeStep]
 
 theorem relTypes_tail (f : Nat) : ∀ rest : List String,
     (((rest.map (fun k' => [N.lf "T__8" "|", schemaName N "oC_RelTypeName" k'])).flatten).filter (isRuleKid N "oC_RelTypeName")).map
